@@ -64,7 +64,18 @@ def const_value(init: Spec, shape: tuple[int, ...]) -> Any:
                 )
             if kind == "float32":
                 return rs.uniform(0.2, 1.5, size=shp).astype(np.float32)
-            return rs.uniform(0.2, 1.5, size=shp)
+            a = rs.uniform(0.2, 1.5, size=shp)
+            tw = v.get("tweak")
+            if tw == "eps":
+                # a twin of another array of the circuit: equal to the printed precision,
+                # different beyond it
+                a = a + 1e-12 * (1.0 + np.arange(a.size).reshape(a.shape))
+            elif tw == "middle":
+                # a twin that differs in one entry in the middle (elided by repr of big arrays)
+                flat = a.reshape(-1).copy()
+                flat[flat.size // 2] += 0.5
+                a = flat.reshape(a.shape)
+            return a
         if "complex" in v:
             return complex(v["complex"][0], v["complex"][1])
         raise HarnessError("bad constant value spec")
